@@ -405,16 +405,16 @@ Proof.
       { apply copy_cells_inv; [exact Ie|lia|unfold cells; rewrite G2, G3; lia]. }
       pose proof (inv_set_type (copy_cells V din e) (ty V din) IC) as IT.
       cbn in IT. rewrite G2, G3, G4 in IT. apply IT. exact I4.
-    + unfold ArraySpec.arr_eq, copy_cells. cbn -[Nat.ltb]. rewrite G2, G3, G4, G5, G10, G11, G12, G13.
+    + unfold ArraySpec.arr_eq, copy_cells. cbn -[Nat.ltb]. rewrite ?G2, ?G3, ?G4, G5, G10, G11, G12, G13.
       repeat split; auto; intros.
       * rewrite G6. bd; auto. symmetry. apply K1. lia.
-      * rewrite G7. bd; auto; symmetry; apply K2; lia.
-      * rewrite G8 by assumption. unfold setup_perf, copyz in *.
+      * rewrite G7. unfold cells. bd; auto; symmetry; apply K2; lia.
+      * rewrite G8 by congruence. unfold setup_perf, copyz, ports in *.
         destruct (per_f V din) eqn:Ep; cbn [negb andb]; [rewrite andb_false_r; reflexivity|].
-        rewrite andb_true_r. bd; auto. symmetry. apply K3; auto. lia.
-      * rewrite G9 by assumption. unfold setup_perf, copyz in *.
+        rewrite andb_true_r. bd; auto; try lia; symmetry; apply K3; auto; lia.
+      * rewrite G9 by congruence. unfold setup_perf, copyz, ports in *.
         destruct (per_f V din) eqn:Ep; [|rewrite andb_false_r in *; cbn in *; congruence].
-        bd; auto; symmetry; apply K4; auto; lia.
+        bd; auto; try lia; symmetry; apply K4; auto; lia.
   - (* matrix to matrix *)
     destruct Sh as [Hsq Hv]. rewrite <- Hsq in *. rewrite Nat.max_id in *. rewrite G2, G3, G4 in *.
     destruct (Nat.leb_spec (freqs V din) (f_alloc V din)); [|lia].
@@ -426,18 +426,18 @@ Proof.
     + set (o2 := store_results V vzero e (freqs V din) (rows V din * rows V din) (conv_results V conv din cs)).
       assert (IS : Inv o2).
       { apply store_results_inv; [exact Ie|lia|unfold cells; rewrite G2, G3; lia]. }
-      pose proof (inv_set_type o2 nt IS) as IT. cbn in IT. rewrite G2, G3, G4 in IT. apply IT. exact Hv.
+      pose proof (inv_set_type o2 nt IS) as IT. cbn in IT. rewrite G2, G3, G4 in IT. change (rows V o2) with (rows V e); change (cols V o2) with (cols V e); change (freqs V o2) with (freqs V e); rewrite ?G2, ?G3, ?G4. apply IT. exact Hv.
     + unfold ArraySpec.arr_eq, store_results. cbn -[Nat.ltb nth conv_results].
-      rewrite G2, G3, G4, G5, G10, G11, G12, G13. rewrite Nat.max_id.
+      rewrite ?G2, ?G3, ?G4, G5, G10, G11, G12, G13. rewrite ?Nat.max_id.
       repeat split; auto; intros.
       * rewrite G6. bd; auto. symmetry. apply K1. lia.
       * rewrite G7. reflexivity.
-      * rewrite G8 by assumption. unfold setup_perf, copyz in *. rewrite Nat.max_id in *.
+      * rewrite G8 by congruence. unfold setup_perf, copyz, ports in *. rewrite Nat.max_id in *.
         destruct (per_f V din) eqn:Ep; cbn [negb andb]; [rewrite andb_false_r; reflexivity|].
-        rewrite andb_true_r. bd; auto. symmetry. apply K3; auto. lia.
-      * rewrite G9 by assumption. unfold setup_perf, copyz in *. rewrite Nat.max_id in *.
+        rewrite andb_true_r. bd; auto; try lia; symmetry; apply K3; auto; lia.
+      * rewrite G9 by congruence. unfold setup_perf, copyz, ports in *. rewrite Nat.max_id in *.
         destruct (per_f V din) eqn:Ep; [|rewrite andb_false_r in *; cbn in *; congruence].
-        bd; auto; symmetry; apply K4; auto; lia.
+        bd; auto; try lia; symmetry; apply K4; auto; lia.
   - (* matrix to Zin *)
     destruct Sh as [Hsq Hz]. subst nt. rewrite <- Hsq in *. rewrite Nat.max_id in *.
     rewrite Nat.ltb_irrefl in *. rewrite G2, G3, G4 in *.
@@ -450,18 +450,18 @@ Proof.
     + set (o2 := store_results V vzero e (freqs V din) (rows V din) (conv_results V conv din cs)).
       assert (IS : Inv o2).
       { apply store_results_inv; [exact Ie|lia|unfold cells; rewrite G2, G3; lia]. }
-      pose proof (inv_set_type o2 VZIN IS) as IT. cbn in IT. rewrite G2, G3, G4 in IT. apply IT. reflexivity.
+      pose proof (inv_set_type o2 VZIN IS) as IT. cbn in IT. rewrite G2, G3, G4 in IT. change (rows V o2) with (rows V e); change (cols V o2) with (cols V e); change (freqs V o2) with (freqs V e); rewrite ?G2, ?G3, ?G4. apply IT. reflexivity.
     + unfold ArraySpec.arr_eq, store_results. cbn -[Nat.ltb nth conv_results Nat.max].
-      rewrite G2, G3, G4, G5, G10, G11, G12, G13. rewrite Nat.ltb_irrefl.
+      rewrite ?G2, ?G3, ?G4, G5, G10, G11, G12, G13. rewrite ?Nat.ltb_irrefl.
       repeat split; auto; intros.
       * rewrite G6. bd; auto. symmetry. apply K1. lia.
       * rewrite G7. reflexivity.
-      * rewrite G8 by assumption. unfold setup_perf, copyz in *.
+      * rewrite G8 by congruence. unfold setup_perf, copyz, ports in *.
         destruct (per_f V din) eqn:Ep; cbn [negb andb]; [rewrite andb_false_r; reflexivity|].
-        rewrite andb_true_r. bd; auto; symmetry; apply K3; auto; lia.
-      * rewrite G9 by assumption. unfold setup_perf, copyz in *.
+        rewrite andb_true_r. bd; auto; try lia; symmetry; apply K3; auto; lia.
+      * rewrite G9 by congruence. unfold setup_perf, copyz, ports in *.
         destruct (per_f V din) eqn:Ep; [|rewrite andb_false_r in *; cbn in *; congruence].
-        bd; auto; symmetry; apply K4; auto; lia.
+        bd; auto; try lia; symmetry; apply K4; auto; lia.
 Qed.
 
 End Result.
